@@ -162,9 +162,9 @@ func Walk(cfg WalkCfg, root reflect.Value) *Result {
 	case reflect.Map:
 		w.res.SawMap = true
 		blk := Item{Entries: map[string][]Item{}}
-		for _, k := range v.MapKeys() {
-			label := "map[" + keyStr(k) + "]"
-			blk.Entries[label] = w.element(label, v.MapIndex(k), 1)
+		for it := v.MapRange(); it.Next(); { // (MapRange, not MapIndex: a NaN key cannot be looked up)
+			label := "map[" + keyStr(it.Key()) + "]"
+			blk.Entries[label] = w.element(label, it.Value(), 1)
 		}
 		w.res.Seq = append(w.res.Seq, blk)
 	default:
@@ -460,9 +460,9 @@ func (w *walker) descend(path string, v reflect.Value, depth int, viaExist bool)
 	case reflect.Map:
 		w.res.SawMap = true
 		blk := Item{Entries: map[string][]Item{}}
-		for _, k := range v.MapKeys() {
-			p := path + "[" + keyStr(k) + "]"
-			blk.Entries[p] = w.element(p, v.MapIndex(k), depth+1)
+		for it := v.MapRange(); it.Next(); {
+			p := path + "[" + keyStr(it.Key()) + "]"
+			blk.Entries[p] = w.element(p, it.Value(), depth+1)
 		}
 		return []Item{blk}
 	}
